@@ -27,7 +27,7 @@ ADDR = {"A": P, "B": Q}
 def bounds(tier):
     k = 4 if tier == "thorough" else 3
     return {
-        "H09a": "TimedStore driven directly (K=4: one address, two keys): K<=%d operations from {refresh(key, ttl finite symbolic 1..0xFFFFFE | infinite), stop(key), stop_all_for_address, stop_all} over 2 addresses x 2 keys; gaps symbolic 0..2^40 ticks; delivery iteration symbolic" % k,
+        "H09a": "TimedStore driven directly: K<=%d operations from {refresh(key, ttl finite symbolic 1..0xFFFFFE | infinite), stop(key), stop_all_for_address, stop_all} over 2 addresses x 2 keys; gaps symbolic 0..2^40 ticks; delivery iteration symbolic" % k,
         "H09b": "ServiceDiscover through datagrams: K<=%d of {Offer(service in 2, source in 2, ttl symbolic 1..0xFFFFFF incl. infinite), StopOffer, connection_lost}; same timing" % (3 if tier == "thorough" else 2),
     }
 
@@ -71,10 +71,8 @@ def cases(tier, seed):
     ops = _ops()
     seen = set()
     out = []
-    one_addr = [o for o in ops if (o[0] in ("refresh", "stop") and KEYS[o[1]][0] == "A") or o == ["stop_addr", "A"] or o == ["stop_all"]]
     for k in range(1, K + 1):
-        # the longest histories of the thorough tier stay on one address (two keys)
-        for combo in itertools.product(one_addr if (k == 4) else ops, repeat=k):
+        for combo in itertools.product(ops, repeat=k):
             if combo[0][0] != "refresh":
                 continue  # operations on an empty store are covered as later steps
             c = _canon(list(combo))
